@@ -207,126 +207,6 @@ ep_null!(ep_null_parse_infallible_with, 5, 7);
 ep_null!(ep_null_parse, 5, 8);
 ep_null!(ep_null_parse_with, 5, 9);
 
-/// The leniency options reach the string unit through every entry point the
-/// same way: the entry points WITHOUT an options argument are strict, the
-/// `_with` ones obey exactly the options they are given. Input: `"\uXXXX"`
-/// with all four hex digit values (and their case) symbolic, i.e. every code
-/// unit: ordinary scalar, high surrogate, low surrogate.
-macro_rules! ep_string {
-	($name:ident, $which:expr) => {
-		#[cfg(kani)]
-		#[kani::proof]
-		#[kani::unwind(10)]
-		#[kani::stub(smallvec::SmallVec::try_grow, crate::util::no_grow)]
-		fn $name() {
-			use decoded_char::DecodedChar;
-			use json_syntax::parse::Options;
-			type S = json_syntax::String;
-			let d: [u8; 4] = [kani::any(), kani::any(), kani::any(), kani::any()];
-			kani::assume(d[0] < 16 && d[1] < 16 && d[2] < 16 && d[3] < 16);
-			let upper: [bool; 4] = [kani::any(), kani::any(), kani::any(), kani::any()];
-			let hex = |k: usize| -> u8 {
-				if d[k] < 10 {
-					b'0' + d[k]
-				} else if upper[k] {
-					b'A' + (d[k] - 10)
-				} else {
-					b'a' + (d[k] - 10)
-				}
-			};
-			let b: [u8; 8] = [b'"', b'\\', b'u', hex(0), hex(1), hex(2), hex(3), b'"'];
-			let cu = ((d[0] as u32) << 12) | ((d[1] as u32) << 8) | ((d[2] as u32) << 4) | d[3] as u32;
-			let given = Options {
-				accept_truncated_surrogate_pair: kani::any(),
-				accept_invalid_codepoints: kani::any(),
-			};
-			let with = $which % 2 == 1;
-			let o = if with { given } else { Options::strict() };
-			let s = unsafe { core::str::from_utf8_unchecked(&b) };
-			let chars = || b.iter().map(|x| *x as char);
-			let r: Result<(S, json_syntax::CodeMap), Error> = match $which {
-				0 => <S as Parse>::parse_str(s),
-				1 => <S as Parse>::parse_str_with(s, given),
-				2 => <S as Parse>::parse_infallible_utf8(chars()),
-				3 => <S as Parse>::parse_utf8_infallible_with(chars(), given),
-				4 => <S as Parse>::parse_utf8(chars().map(Ok::<char, core::convert::Infallible>)),
-				5 => <S as Parse>::parse_utf8_with(chars().map(Ok::<char, core::convert::Infallible>), given),
-				6 => <S as Parse>::parse_infallible(chars().map(DecodedChar::from_utf8)),
-				7 => <S as Parse>::parse_infallible_with(chars().map(DecodedChar::from_utf8), given),
-				8 => <S as Parse>::parse(chars().map(|c| Ok::<DecodedChar, core::convert::Infallible>(DecodedChar::from_utf8(c)))),
-				_ => <S as Parse>::parse_with(chars().map(|c| Ok::<DecodedChar, core::convert::Infallible>(DecodedChar::from_utf8(c))), given),
-			};
-			let high = (0xD800..=0xDBFF).contains(&cu);
-			let low = (0xDC00..=0xDFFF).contains(&cu);
-			let want: Option<char> = if high {
-				if o.accept_truncated_surrogate_pair {
-					Some('\u{fffd}')
-				} else {
-					None
-				}
-			} else if low {
-				if o.accept_invalid_codepoints {
-					Some('\u{fffd}')
-				} else {
-					None
-				}
-			} else {
-				char::from_u32(cu)
-			};
-			match &r {
-				Ok((got, _)) => {
-					let label_ok = want.is_some();
-					if with {
-						assert!(label_ok, "C12:lenient-accepts-only-the-documented-relaxations");
-					} else {
-						assert!(label_ok, "C12:entry-points-without-options-are-strict");
-					}
-					let mut buf = [0u8; 4];
-					let w = want.unwrap_or('\0').encode_utf8(&mut buf).as_bytes();
-					let g = got.as_bytes();
-					let mut same = g.len() == w.len();
-					if g.len() > 0 && w.len() > 0 && g[0] != w[0] {
-						same = false;
-					}
-					if g.len() > 1 && w.len() > 1 && g[1] != w[1] {
-						same = false;
-					}
-					if g.len() > 2 && w.len() > 2 && g[2] != w[2] {
-						same = false;
-					}
-					if g.len() > 3 && w.len() > 3 && g[3] != w[3] {
-						same = false;
-					}
-					assert!(same, "C02:string-decoded-per-rfc8259-section-7");
-				}
-				Err(e) => {
-					assert!(want.is_none(), "C12:lenient-accepts-every-documented-relaxation");
-					if high {
-						assert!(matches!(e, Error::MissingLowSurrogate(_, h) if *h as u32 == cu), "C07:surrogate-error-carries-the-code-units");
-					} else {
-						assert!(matches!(e, Error::InvalidUnicodeCodePoint(_, c) if *c == cu), "C07:surrogate-error-carries-the-code-units");
-					}
-				}
-			}
-			kani::cover!(high && want.is_some());
-			kani::cover!(low && want.is_none());
-			kani::cover!(!high && !low && cu > 0x7FF);
-			core::mem::forget(r);
-		}
-	};
-}
-
-ep_string!(ep_string_parse_str, 0);
-ep_string!(ep_string_parse_str_with, 1);
-ep_string!(ep_string_parse_infallible_utf8, 2);
-ep_string!(ep_string_parse_utf8_infallible_with, 3);
-ep_string!(ep_string_parse_utf8, 4);
-ep_string!(ep_string_parse_utf8_with, 5);
-ep_string!(ep_string_parse_infallible, 6);
-ep_string!(ep_string_parse_infallible_with, 7);
-ep_string!(ep_string_parse, 8);
-ep_string!(ep_string_parse_with, 9);
-
 #[cfg(test)]
 mod tests {
 	use super::*;
